@@ -7,7 +7,8 @@ Proof: FP/Props/C10.lean
      for the cyclic klaecLP the corresponding statements are FALSE: ignored_flow_irrelevant_klaec_false, ignore_relaxes_klaec_false
      (concrete witnesses, replayed on the real code through known_findings.json);
   T4 augment_starts_ends (+ monotone, new_route_starts/ends_there, start_at_source_noop, end_at_sink_noop);
-  T5 used_indicator_exact/complete, subset_constraint_honoured (cyclic).
+  T5 used_indicator_exact/complete, subset_constraint_honoured, subset_constraint_complete, subset_block_exact (cyclic: the
+     feasible set of walkCore projected off the r / used_edge columns == encodeWalks-feasible and every constraint covered).
 Tie: K2 LP-dump equality of the six encoders that carry the features; K2 row-difference suite (same configuration with and
 without one ignored edge: the difference of the two REAL LP dumps is exactly the block `lp.edgeblock` of the Lean model).
 Oracles (K5, written against the property text, on real solved models of the 12 classes + MinErrorFlow):
@@ -37,7 +38,8 @@ THEOREMS = ["FP.Props.C10.constraint_honoured", "FP.Props.C10.constraint_honoure
             "FP.Props.C10.new_route_starts_there", "FP.Props.C10.new_route_ends_there",
             "FP.Props.C10.start_at_source_noop", "FP.Props.C10.end_at_sink_noop",
             "FP.Props.C10.used_indicator_exact", "FP.Props.C10.used_indicator_complete",
-            "FP.Props.C10.subset_constraint_honoured",
+            "FP.Props.C10.subset_constraint_honoured", "FP.Props.C10.subset_constraint_complete",
+            "FP.Props.C10.subset_block_exact",
             "FP.Props.C01.pathcore_sound", "FP.Props.C01.dag_routes_valid"]
 IMPORTS = ["FP.Props.C10", "FP.Props.C01"]
 K2_ADAPTERS = ["kfd", "klae", "kmpe", "kcover", "kfdc", "kcoverc"]
@@ -50,8 +52,9 @@ RULE = ("K2: random configurations per adapter (non-trivial: LP with more than 8
         "non-trivial iff the model is solved and the feature under test is present.")
 MODEL_SCOPE = ("proven: T1/T2 for the DAG path core (any s-t DAG, both coverage variants, whole encodePaths), T3 for kfdLP, kcoverLP, "
                "klaeLP, kmpeLP (row deletion, relaxation, flow irrelevance for kfd, scale 0 == ignore for klae/kmpe), T4 for the "
-               "augmentation, T5 soundness for the walk core; refuted on concrete witnesses: flow irrelevance and relaxation for the "
-               "cyclic klaecLP. Stated, not proven (…_Statement): completeness of the subset block. Not modelled: node "
+               "augmentation, T5 soundness and completeness of the subset block of the walk core (any s-t digraph, any coverage "
+               "fraction, any repetition caps); refuted on concrete witnesses: flow irrelevance and relaxation for the "
+               "cyclic klaecLP. Not modelled: node "
                "origin (C11), safe lists appended to the constraints (given weights + constraints), greedy route (oracle only), Min* "
                "searches (C03/C09), MinErrorFlow encoder (oracle only).")
 TRUSTED = ["HiGHS proves optimality/infeasibility correctly on the small instances used by the brute-force and metamorphic oracles",
